@@ -14,6 +14,9 @@
  *                                            g:<hex key>         get                               -> g=<rc>/<tag|~>
  *                                            r:<hex key>         remove                            -> r=<rc>
  *                                            k                   keys / names, sorted              -> k=[<hex>,<hex>,…]
+ *                                            C   (tbl) the table is replaced by its cif_value_clone          -> C=<rc>
+ *                                            N:<hex>,<hex>,…  (pkt) the packet is replaced by cif_packet_create(names) - unknown values -,
+ *                                                kept as it is when the creation is refused                      -> N=<rc>
  *                                            S   (tbl) the table is stored in a managed CIF with cif_container_set_value and read back with
  *                                                cif_container_get_value; every later op works on the READ-BACK table   -> S=<rc set>/<rc get>
  *                                            P   (tbl) the table is stored as the one item of a loop packet (cif_loop_add_packet) and read
@@ -330,8 +333,8 @@ static void do_map(int argc, char **argv) {
     int is_tbl = strcmp(argv[2], "tbl") == 0, i, nkeys = 0;
     cif_value_tp *tbl = NULL;
     cif_packet_tp *pkt = NULL;
-    UChar **keys = (UChar **) calloc((size_t) argc, sizeof(UChar *));
-    size_t *klen = (size_t *) calloc((size_t) argc, sizeof(size_t));
+    UChar **keys = (UChar **) calloc((size_t) argc * 16 + 16, sizeof(UChar *));
+    size_t *klen = (size_t *) calloc((size_t) argc * 16 + 16, sizeof(size_t));
 
     if (!is_tbl && strcmp(argv[2], "pkt") != 0) { OUT("bad-op"); free(keys); free(klen); return; }
     if ((is_tbl ? cif_value_create(CIF_TABLE_KIND, &tbl) : cif_packet_create(&pkt, NULL)) != CIF_OK) { OUT("nm setup-failed"); free(keys); free(klen); return; }
@@ -355,6 +358,37 @@ static void do_map(int argc, char **argv) {
                 free(hs);
                 free((void *) ks);
             }
+        } else if (strcmp(op, "C") == 0 && is_tbl) {
+            cif_value_tp *c = NULL;
+            int rc = cif_value_clone(tbl, &c);
+            OUT(" C=%d", rc);
+            if (rc == CIF_OK && c) { cif_value_free(tbl); tbl = c; }
+        } else if (op[0] == 'N' && op[1] == ':' && !is_tbl) {
+            /* a fresh packet from a list of names */
+            UChar *nm[16];
+            int cnt = 0, j, bad = 0, rc;
+            char *q = op + 2, *tok2;
+            cif_packet_tp *np = NULL;
+            while ((tok2 = strsep(&q, ",")) != NULL && cnt < 15) {
+                size_t nk = 0;
+                nm[cnt] = NULL;
+                if (!unhex(tok2, &nm[cnt], &nk) || !nm[cnt] || !nonul(nm[cnt], nk)) { bad = 1; free(nm[cnt]); break; }
+                cnt++;
+            }
+            nm[cnt] = NULL;
+            if (bad) OUT(" bad-op");
+            else {
+                rc = cif_packet_create(&np, nm);
+                OUT(" N=%d", rc);
+                if (rc == CIF_OK && np) { cif_packet_free(pkt); pkt = np; }
+                for (j = 0; j < cnt; j++) {
+                    int known = 0, i2;
+                    size_t nk = (size_t) u_strlen(nm[j]);
+                    for (i2 = 0; i2 < nkeys; i2++) if (klen[i2] == nk && memcmp(keys[i2], nm[j], nk * sizeof(UChar)) == 0) known = 1;
+                    if (!known) { keys[nkeys] = nm[j]; klen[nkeys] = nk; nkeys++; nm[j] = NULL; }
+                }
+            }
+            for (j = 0; j < cnt; j++) free(nm[j]);
         } else if ((strcmp(op, "S") == 0 && is_tbl) || strcmp(op, "P") == 0) {
             through_store(is_tbl, op[0], &tbl, &pkt);
         } else if ((op[0] == 's' || op[0] == 'g' || op[0] == 'r') && op[1] == ':') {
